@@ -23,6 +23,11 @@ What it does
   names with control characters, DEL, a backslash, a leading `/`, `//`, or longer than 1024 bytes are rejected (400 `bad_request`);
 * `Content-Length` is enforced on uploads; `X-Bz-Content-Sha1` is verified unless `do_not_verify`.
 
+* credentials with a lifetime (C12 sessions; nothing changes until one of these is called): `expire_account_tokens()` — every
+  account token issued so far answers 401 `expired_auth_token` from now on; `expire_upload_tokens()` — so does every upload URL /
+  upload token pair issued so far; `retire_upload_pods()` — every upload URL issued so far answers 503 `service_unavailable`
+  (the pod behind it is gone; B2 tells clients to fetch a new upload URL).  Credentials issued AFTER the event are valid.
+
 Fault hook: `fault(request) -> None | httpx.Response | BaseException`, consulted first on every request.
 Every request is appended to `fake.log` as a dict (api, name, status).
 """
@@ -58,11 +63,28 @@ class FakeB2:
         self.n_aged_out = 0                 # requests answered 401 because the token was older than token_ttl
         self.n_tokens = 0
         self.log = []
+        self.revoked_tokens = set()         # account tokens that stopped being accepted (expire_account_tokens)
+        self.revoked_upload_tokens = set()  # upload tokens / URLs that stopped being accepted (expire_upload_tokens)
+        self.retired_upload_tokens = set()  # upload URLs whose pod is gone: 503 (retire_upload_pods)
+        self.n_revoked_hits = 0             # requests answered 401 / 503 because of one of the three sets
 
     # ------------------------------------------------------------------ state helpers
     def live(self):
         """name -> bytes for names whose newest version is an upload."""
         return {n: v[-1][1] for n, v in self.versions.items() if v and v[-1][0] == 'upload'}
+
+    # ------------------------------------------------------------------ credentials with a lifetime (events between requests)
+    def expire_account_tokens(self):
+        """every account authorisation token handed out so far expires now (B2: 24 h after b2_authorize_account)"""
+        self.revoked_tokens |= set(self.tokens)
+
+    def expire_upload_tokens(self):
+        """every upload URL / upload authorisation token handed out so far expires now (B2: 24 h, or when the pod says so)"""
+        self.revoked_upload_tokens |= set(self.upload_tokens)
+
+    def retire_upload_pods(self):
+        """the pods behind every upload URL handed out so far are gone: 503, "get a new upload URL" """
+        self.retired_upload_tokens |= set(self.upload_tokens)
 
     @staticmethod
     def _err(status, code, message=''):
@@ -89,6 +111,9 @@ class FakeB2:
         if t not in self.tokens:
             return self._err(401, 'bad_auth_token', 'Invalid authorization token')
         if self._aged_out(t):
+            return self._err(401, 'expired_auth_token', 'Authorization token has expired')
+        if t in self.revoked_tokens:
+            self.n_revoked_hits += 1
             return self._err(401, 'expired_auth_token', 'Authorization token has expired')
         left = self.tokens[t]
         if left is not None:
@@ -226,6 +251,12 @@ class FakeB2:
             return self._err(401, 'bad_auth_token', 'upload token')
         if self._aged_out(tok):
             return self._err(401, 'expired_auth_token', 'Upload authorization token has expired')
+        if tok in self.revoked_upload_tokens:
+            self.n_revoked_hits += 1
+            return self._err(401, 'expired_auth_token', 'Upload authorization token has expired')
+        if tok in self.retired_upload_tokens:
+            self.n_revoked_hits += 1
+            return self._err(503, 'service_unavailable', 'The upload pod is gone, call b2_get_upload_url again')
         enc_name = request.headers.get('x-bz-file-name')
         if enc_name is None:
             return self._err(400, 'bad_request', 'missing X-Bz-File-Name')
